@@ -4,12 +4,14 @@ package main
 
 import (
 	"bytes"
+	"encoding/json"
 	"fmt"
 	"math/big"
 	"math/rand"
 	"net"
 	"strconv"
 	"strings"
+	"time"
 
 	"github.com/absfs/absnfs"
 )
@@ -17,11 +19,22 @@ import (
 func init() {
 	checks["C09"] = checkC09
 	checks["C10"] = checkC10
-	replays["C09"] = opsReplay("hostfilter", runAuthOps, func(r *Result, ops, impl []string) {
+	c09ops := opsReplay("hostfilter", runAuthOps, func(r *Result, ops, impl []string) {
 		for i := range ops {
 			hostOracle(r, ops[i], impl[i])
 		}
 	})
+	replays["C09"] = func(r *Result, raw json.RawMessage) {
+		var rp struct {
+			Ops []string `json:"ops"`
+		}
+		json.Unmarshal(raw, &rp)
+		if len(rp.Ops) > 0 && strings.HasPrefix(rp.Ops[0], "gate ") {
+			gateCheck(r, rand.New(rand.NewSource(1))) // the gate scenarios are a fixed table: replayed as a whole
+			return
+		}
+		c09ops(r, raw)
+	}
 	replays["C10"] = opsReplay("squash", runAuthOps, func(r *Result, ops, impl []string) {
 		for i := range ops {
 			squashOracle(r, ops[i], impl[i])
@@ -375,16 +388,31 @@ func gateCheck(r *Result, rng *rand.Rand) {
 		ip   string
 		port int
 		deny bool
+		// roundtrip: before the probes, do the documented read-modify-write of an unrelated option
+		// (GetExportOptions, IdleTimeout += 1s, UpdateExportOptions): the access policy must survive it
+		roundtrip bool
 	}{
-		{"ip-denied", absnfs.ExportOptions{AllowedIPs: []string{"10.0.0.0/8"}}, "192.168.1.1", 700, true},
-		{"ip-mapped-denied", absnfs.ExportOptions{AllowedIPs: []string{"10.0.0.0/8"}}, "::ffff:192.168.1.1", 700, true},
-		{"ip-allowed", absnfs.ExportOptions{AllowedIPs: []string{"10.0.0.0/8"}}, "::ffff:10.1.2.3", 700, false},
-		{"secure-denied", absnfs.ExportOptions{Secure: true}, "10.0.0.1", 1024, true},
-		{"secure-allowed", absnfs.ExportOptions{Secure: true}, "10.0.0.1", 1023, false},
-		{"bad-client", absnfs.ExportOptions{AllowedIPs: []string{"0.0.0.0/0", "::/0"}}, "bogus", 700, true},
+		{"ip-denied", absnfs.ExportOptions{AllowedIPs: []string{"10.0.0.0/8"}}, "192.168.1.1", 700, true, false},
+		{"ip-mapped-denied", absnfs.ExportOptions{AllowedIPs: []string{"10.0.0.0/8"}}, "::ffff:192.168.1.1", 700, true, false},
+		{"ip-allowed", absnfs.ExportOptions{AllowedIPs: []string{"10.0.0.0/8"}}, "::ffff:10.1.2.3", 700, false, false},
+		{"secure-denied", absnfs.ExportOptions{Secure: true}, "10.0.0.1", 1024, true, false},
+		{"secure-allowed", absnfs.ExportOptions{Secure: true}, "10.0.0.1", 1023, false, false},
+		{"bad-client", absnfs.ExportOptions{AllowedIPs: []string{"0.0.0.0/0", "::/0"}}, "bogus", 700, true, false},
+		{"ip-denied-after-update", absnfs.ExportOptions{AllowedIPs: []string{"10.0.0.0/8"}}, "192.168.1.1", 700, true, true},
+		{"ip-allowed-after-update", absnfs.ExportOptions{AllowedIPs: []string{"10.0.0.0/8"}}, "10.1.2.3", 700, false, true},
+		{"secure-denied-after-update", absnfs.ExportOptions{Secure: true}, "10.0.0.1", 50000, true, true},
+		{"secure-allowed-after-update", absnfs.ExportOptions{Secure: true}, "10.0.0.1", 1023, false, true},
+		{"both-denied-after-update", absnfs.ExportOptions{Secure: true, AllowedIPs: []string{"10.0.0.0/8"}}, "10.0.0.1", 2049, true, true},
 	} {
 		s, err := newSrv(fs, cfg.opt)
 		must(err)
+		if cfg.roundtrip {
+			o := s.NFS.GetExportOptions()
+			o.IdleTimeout += time.Second
+			if err := s.NFS.UpdateExportOptions(o); err != nil {
+				panic("gateCheck: options round trip refused: " + err.Error())
+			}
+		}
 		// obtain the root handle as an admitted client first
 		s.IP, s.Port = "10.0.0.1", 700
 		if cfg.name == "bad-client" {
